@@ -1266,7 +1266,7 @@ fn validate_model(server: &Server, k: usize, p: &Prepared) -> Result<Vote, Strin
     }
 }
 
-fn main() {
+pub fn main() {
     let mut ck = Check::new("C32", "exploration");
     let known: Vec<String> = std::fs::read_to_string("/verif/known_findings.json")
         .ok()
